@@ -1061,6 +1061,137 @@ def _replay_keys(case, seed):
     return core.result(v)
 
 
+# ------------------------------------------------------------------ how the path is spelt (engine L)
+#
+# "saved by Standardize.save and loaded again through Standardize(rfilename=...)": the target is named by a
+# str path, and a path may be spelt in many ways.  Every spelling below names ONE file (`want`, relative to the
+# case's scratch directory, which is the current directory while the case runs - restored afterwards).  The
+# unchanged tree accepts all of them; pathlib.Path and bytes paths are rejected by it (save dispatches on
+# str.endswith) and are not enumerated.  Oracle: the save succeeds (twice: a first save and a re-save), creates
+# exactly that file and nothing else, leaves the current directory alone, and the reload THROUGH THE SAME
+# SPELLING and through the absolute path has an apply() bit-identical to the saving object's.
+
+P_SPELLINGS = ("bare", "dot_slash", "subdir", "subdir_dotdot", "double_slash", "absolute", "absolute_dotdot",
+               "dotdot_cwd")
+P_NAMES = (("npy", "stats.npy"), ("npy", "a.b.c.npy"), ("npy", ".npy"), ("npy", "st ats.npy"),
+           ("npz", "stats.npz"), ("npz", "a.b.npz"), ("raw", "stats"), ("raw", "stats."), ("raw", "stats.x.y"),
+           ("raw", "stats.cmvn"), ("raw", ".hidden"), ("raw", "npy"))
+P_ARGS = {"npy": ((None, False),), "npz": ((None, False), ("k", False), (None, True), ("k", True)),
+          "raw": ((None, False),)}
+
+
+def _spell(spelling, name, root):
+    """-> (the path string handed to the library, the file it names relative to root); cwd is root"""
+    base = os.path.basename(root)
+    if spelling == "bare":
+        return name, name
+    if spelling == "dot_slash":
+        return "./" + name, name
+    if spelling == "subdir":
+        return "sub/" + name, os.path.join("sub", name)
+    if spelling == "subdir_dotdot":
+        return "sub/../" + name, name
+    if spelling == "double_slash":
+        return "sub//" + name, os.path.join("sub", name)
+    if spelling == "absolute":
+        return os.path.join(root, name), name
+    if spelling == "absolute_dotdot":
+        return os.path.join(root, "sub", "..", name), name
+    if spelling == "dotdot_cwd":
+        return "../" + base + "/" + name, name
+    raise core.HarnessError("unknown spelling %r" % (spelling,))
+
+
+def _listing(root):
+    out = []
+    for d, _, files in os.walk(root):
+        out += [os.path.relpath(os.path.join(d, f), root) for f in files]
+    return sorted(out)
+
+
+def _path_one(seed, spelling, tkind, name, key, compress, scratch):
+    from pydrobert.speech import post
+
+    root = _case_dir(scratch)
+    os.mkdir(os.path.join(root, "sub"))
+    tags = dict(check="path", target=tkind, spelling=spelling, has_directory_part=(spelling != "bare"))
+    case = dict(spelling=spelling, target=[tkind, name, key, compress])
+    old_cwd = os.getcwd()
+    viol = []
+    try:
+        os.chdir(root)
+        path, want = _spell(spelling, name, root)
+        obj = post.Standardize()
+        obj.accumulate(sig.ro(_alpha_data(seed, "generic", 7, "float64")), -1)
+        g = sig.signal(seed, 3 * AF, offset=51).reshape(3, AF) * 2.0 - 1.0
+        probes = [(sig.ro(g), -1), (sig.ro(g[0]), -1)]
+        b = _alpha_apply(obj, probes)
+        kw = {}
+        if tkind == "raw":
+            kw["force_as"] = "file"
+        if key is not None:
+            kw["key"] = key
+        for rnd in ("first_save", "resave"):
+            r = computers.call(obj.save, path, key, compress)
+            here = os.getcwd()
+            if here != root:
+                os.chdir(root)
+                viol.append(core.violation(dict(tags, what="cwd_changed", round=rnd),
+                                           "save(%r) left the current directory at %r" % (path, here), case))
+            if r[0] != "ok":
+                viol.append(core.violation(
+                    dict(tags, what="save_raises", exc=r[1], round=rnd),
+                    "current directory = the scratch directory; save(%r, key=%r, compress=%r) (%s) raised %s: %s" % (
+                        path, key, compress, rnd, r[1], r[2]), case))
+                break
+            got = _listing(root)
+            if got != [want]:
+                viol.append(core.violation(
+                    dict(tags, what="wrong_files", round=rnd),
+                    "save(%r) from the scratch directory: files below it are %r, expected exactly %r" % (
+                        path, got, [want]), case))
+                break
+            for via, rp in (("same_spelling", path), ("absolute", os.path.join(root, want))):
+                rr = computers.call(lambda: post.Standardize(rp, **kw))
+                if rr[0] != "ok":
+                    viol.append(core.violation(
+                        dict(tags, what="reload_raises", exc=rr[1], round=rnd, via=via),
+                        "Standardize(%r) after save(%r) raised %s: %s" % (rp, path, rr[1], rr[2]), case))
+                elif _alpha_apply(rr[1], probes) != b:
+                    viol.append(core.violation(
+                        dict(tags, what="reload_differs", round=rnd, via=via),
+                        "Standardize(%r) after save(%r): apply() differs from the saving object's" % (rp, path), case))
+            if viol:
+                break
+    finally:
+        os.chdir(old_cwd)
+        shutil.rmtree(root, ignore_errors=True)
+    return viol
+
+
+def _eval_paths(pt, seed):
+    spelling, tkind, name = pt
+    scratch = tempfile.mkdtemp(prefix="verif-")
+    viol, evals = [], 0
+    try:
+        for key, compress in P_ARGS[tkind]:
+            evals += 1
+            viol += _path_one(seed, spelling, tkind, name, key, compress, scratch)
+    finally:
+        shutil.rmtree(scratch, ignore_errors=True)
+    return core.result(viol, evals=evals, nontrivial_count=evals, obs=(spelling, tkind, len(viol) == 0),
+                       sample=dict(spelling=spelling, name=name))
+
+
+def _replay_paths(case, seed):
+    scratch = tempfile.mkdtemp(prefix="verif-")
+    try:
+        t = case["target"]
+        return core.result(_path_one(seed, case["spelling"], t[0], t[1], t[2], t[3], scratch))
+    finally:
+        shutil.rmtree(scratch, ignore_errors=True)
+
+
 def _key_points():
     enc = [("<none>" if k is None else k) for k in K_KEYS]
     return [[[a, b], c] for a in enc for b in enc for c in (False, True)] + \
@@ -1124,4 +1255,16 @@ def subchecks(tier, seed):
             "every continuation by 0..%d further keys; non-trivial = more than one save" % (
                 K_DEPTH, list(K_KEYS), K_DEPTH - 2),
             axes=dict(keys=[("<none>" if k is None else k) for k in K_KEYS], depth=K_DEPTH, compress=[False, True]),
-            replay=lambda case: _replay_keys(case, seed))]
+            replay=lambda case: _replay_keys(case, seed)),
+        core.SubCheck(
+            "path_spellings", [[sp, t, n] for sp in P_SPELLINGS for t, n in P_NAMES], lambda p: _eval_paths(p, seed),
+            "how the target is SPELT: %r (the scratch directory of the case is the current directory while it runs) "
+            "x file names %r (several dots, a trailing dot, no suffix, a name that is only a suffix, a blank) x "
+            "key / compress for .npz: first save and re-save succeed, exactly the named file exists below the "
+            "scratch directory, the current directory is unchanged, and the reload through the same spelling and "
+            "through the absolute path has an apply() bit-identical to the saving object's. evaluations = (spelling, "
+            "name, key, compress) cases" % (list(P_SPELLINGS), [n for _, n in P_NAMES]),
+            axes=dict(spelling=list(P_SPELLINGS), name=[list(x) for x in P_NAMES],
+                      not_enumerated="pathlib.Path and bytes paths (save dispatches on str.endswith: rejected by the "
+                                     "unchanged tree, the signature says str)"),
+            replay=lambda case: _replay_paths(case, seed))]
